@@ -682,7 +682,7 @@ class Gen:
     # ------------------------------------------------------------------ idioms
     def s_idiom(self, ctx):
         r = self.r
-        k = r.randrange(0, 8)
+        k = r.randrange(0, 14)
         s = self.fresh("")
         V = A.Var
         if k == 0:      # counter closure
@@ -763,6 +763,73 @@ class Gen:
                     A.Return(V("out")),
                 ]),
                 A.pr(A.call(m, A.FuncE([V("x")], False, [A.Return(A.Bin("*", V("x"), A.Int(r.randrange(-3, 4))))]), A.Range(A.Int(0), A.Int(r.randrange(0, 5))))),
+            ]
+        if k == 8:      # closures created in a loop capture that iteration's variables
+            self.feat("loop_closures")
+            fs, acc = "fs" + s, "tot" + s
+            return [
+                A.Declare(V(fs), A.lst()), A.Declare(V(acc), A.Int(0)),
+                A.For(A.lst(V("i"), V("x")), A.lst(A.Str("p"), A.Str("q"), A.Str("r")), [
+                    A.Declare(V("loc"), A.Bin("*", V("i"), A.Int(10))),
+                    A.OpAssign("+", V(fs), A.lst(A.FuncE([V("d")], False, [A.OpAssign("+", V("loc"), V("d")), A.OpAssign("+", V(acc), A.Int(1)),
+                                                                          A.Return(A.IStr([V("x"), ":", A.Call(A.Prop(V("loc"), "type", True), [])]))])))]),
+                A.For(A.lst(V("_"), V("f")), V(fs), [A.pr(A.call("f", A.Int(1))), A.pr(A.call("f", self.expr(INT, ctx, 2)))]),
+                A.pr(V(acc)),
+            ]
+        if k == 9:      # nested for-target patterns over a list of pairs / objects
+            self.feat("for_nested_pattern")
+            ps = "ps" + s
+            return [
+                A.Declare(V(ps), A.lst(A.lst(A.Int(1), A.obj(("n", A.Str("a")), ("m", A.Int(7)))), A.lst(A.Int(2), A.obj(("n", A.Str("b")), ("m", A.Int(8)), ("z", A.Null()))))),
+                A.For(A.lst(V("idx"), A.lst(V("num"), A.ObjectE([A.Single(V("n"), False, False), A.Single(V("other"), False, True)]))), V(ps),
+                      [A.pr(A.lst(V("idx"), V("num"), V("n"))), A.pr(V("other"))]),
+            ]
+        if k == 10:     # jumps through blocks inside a function inside a loop
+            self.feat("jumps_through_blocks")
+            f = "jb" + s
+            return [
+                A.FuncStmt(f, [V("lim")], False, [
+                    A.Declare(V("i"), A.Int(0)), A.Declare(V("seen"), A.lst()),
+                    A.While(A.Bool(True), [
+                        A.OpAssign("+", V("i"), A.Int(1)),
+                        A.Block([A.If([(A.Bin("==", A.Bin("%", V("i"), A.Int(2)), A.Int(0)), [A.Block([A.Continue()])])], None)]),
+                        A.Block([A.If([(A.Bin(">", V("i"), V("lim")), [A.Block([A.Return(V("seen"))])])], None)]),
+                        A.OpAssign("+", V("seen"), A.lst(V("i"))),
+                        A.If([(A.Bin(">", V("i"), A.Int(40)), [A.Block([A.Break()])])], None)]),
+                    A.Return(A.Str("fell out"))]),
+                A.pr(A.call(f, A.Int(r.randrange(0, 9)))), A.pr(A.call(f, A.Int(100))),
+            ]
+        if k == 11:     # byte-level string work
+            self.feat("string_bytes")
+            t, n = "txt" + s, "nb" + s
+            word = r.choice(["héllo", "a✓b", "plain", "😀x", ""])
+            return [
+                A.Declare(V(t), A.Bin("+", A.Str(word), self.expr(STR, ctx, 2))), A.Declare(V(n), A.Call(A.Prop(V(t), "len", True), [])),
+                A.pr(V(n)), A.pr(A.Bin("==", A.Bin("+", A.RangeIndex(V(t), None, A.Bin("/", V(n), A.Int(2))), A.RangeIndex(V(t), A.Bin("/", V(n), A.Int(2)), None)), V(t))),
+                A.Declare(V("cnt" + s), A.Int(0)), A.For(V("_"), V(t), [A.OpAssign("+", V("cnt" + s), A.Int(1))]), A.pr(A.Bin("==", V("cnt" + s), V(n))),
+            ]
+        if k == 12:     # methods calling methods through `this`, handing `this` on
+            self.feat("this_chain")
+            o = "acct" + s
+            return [
+                A.Declare(V(o), A.obj(("bal", A.Int(10)),
+                                      ("add", A.FuncE([V("d")], False, [A.OpAssign("+", A.Prop(V("this"), "bal", False), V("d")), A.Return(V("this"))])),
+                                      ("twice", A.FuncE([V("d")], False, [A.ExprStmt(A.Call(A.Prop(V("this"), "add", False), [(V("d"), False)])),
+                                                                          A.Return(A.Call(A.Prop(A.Call(A.Prop(V("this"), "add", False), [(V("d"), False)]), "show", False), []))])),
+                                      ("show", A.FuncE([], False, [A.Return(A.IStr(["bal=", A.Call(A.Prop(A.Prop(V("this"), "bal", False), "type", True), [])]))])))),
+                A.pr(A.Call(A.Prop(V(o), "twice", False), [(self.expr(INT, ctx, 2), False)])),
+                A.pr(A.Prop(V(o), "bal", False)),
+                A.pr(A.Bin("===", A.Call(A.Prop(V(o), "add", False), [(A.Int(0), False)]), V(o))),
+            ]
+        if k == 13:     # spread in every position plus collected rest in a parameter pattern
+            self.feat("spread_everywhere")
+            f, xs, ob = "sp" + s, "sx" + s, "so" + s
+            return [
+                A.FuncStmt(f, [A.ListE([(V("h"), False), (V("t"), False)], True), A.ObjectE([A.Pair(A.Str("k"), V("kv")), A.Single(V("more"), False, True)]), V("rest")], True,
+                           [A.Return(A.lst(V("h"), V("t"), V("kv"), V("more"), V("rest")))]),
+                A.Declare(V(xs), A.lst(A.Int(1), A.Int(2), A.Int(3))), A.Declare(V(ob), A.obj(("k", A.Str("v")), ("z", A.Int(0)))),
+                A.pr(A.Call(V(f), [(A.ListE([(V(xs), True), (A.Int(4), False)], False), False), (A.ObjectE([A.Single(V(ob), True, False), A.Pair(A.Str("y"), A.Int(9))]), False), (V(xs), True)])),
+                A.pr(V(xs)), A.pr(V(ob)),
             ]
         # aliasing
         self.feat("alias")
